@@ -355,7 +355,14 @@ impl<'de> Visitor<'de> for JsonValueDecoderVisitor {
 }
 
 fn parse_number(dict: &Dict) -> Result<HVal, JsonErr> {
-    match dict.get_num("val") {
+    // The non-finite numbers are spelled as strings
+    let special = match dict.get_str("val").map(|val| val.value.as_str()) {
+        Some("INF") => Some(Number::make(f64::INFINITY)),
+        Some("-INF") => Some(Number::make(f64::NEG_INFINITY)),
+        Some("NaN") => Some(Number::make(f64::NAN)),
+        _ => None,
+    };
+    match special.as_ref().or_else(|| dict.get_num("val")) {
         Some(val) => match dict.get_str("unit") {
             Some(unit) => {
                 if let Some(unit) = get_unit(unit.as_str()) {
